@@ -73,7 +73,110 @@ def macro_of(term):
     return macs[-1] if macs else ""
 
 
+def _named_local(view, op, depth=8):
+    """Debug name (or constant value) an operand derives from by copies."""
+    while depth > 0:
+        depth -= 1
+        if op.get("o") == "const":
+            c = op.get("c")
+            if c == "lit":
+                return str(op.get("sv", op["v"]))
+            if c == "param":
+                return op["n"]
+            if c == "uneval":
+                return op["def"].split("::")[-1]
+            return "const"
+        if op.get("o") not in ("copy", "move"):
+            return "?"
+        if op["p"]:
+            base = view.local_name(op["l"]) or "_"
+            for e in op["p"]:
+                if e == "deref":
+                    base = "*" + base
+                elif e[0] == "f":
+                    base += ".%d" % e[1]
+                elif e[0] == "idx":
+                    base += "[%s]" % _named_local(view, {"o": "copy", "l": e[1], "p": []}, depth)
+                elif e[0] == "cidx":
+                    base += "[%s%d]" % ("-" if e[2] else "", e[1])
+                elif e[0] == "dc":
+                    base += " as %s" % e[2]
+                else:
+                    base += ".?"
+            return base
+        n = view.local_name(op["l"])
+        if n:
+            return n
+        d = view.single_def(op["l"])
+        if d is None:
+            return "?"
+        if d[1] == "term":
+            nm = ir.callee_name(d[2]["fn"]) or "call"
+            return nm.split("::")[-1] + "()"
+        rv = d[2]["rv"]
+        if rv["r"] == "use":
+            op = rv["a"]
+            continue
+        if rv["r"] == "bin":
+            return "%s(%s,%s)" % (rv["op"], _named_local(view, rv["a"], depth), _named_local(view, rv["b"], depth))
+        if rv["r"] == "cast":
+            op = rv["a"]
+            continue
+        return rv["r"]
+    return "?"
+
+
+def _cond_descr(view, block):
+    """Short structural description of the branch condition that leads into `block`."""
+    preds = view.preds.get(block, [])
+    for _ in range(3):
+        if len(preds) != 1:
+            return ""
+        p = preds[0]
+        t = view.blocks[p]["term"]
+        if t["t"] == "switch":
+            d = t["discr"]
+            if d.get("o") in ("copy", "move") and not d["p"]:
+                ch = view.chase(d)
+                if ch[0] == "rv" and ch[1]["r"] == "un":
+                    ch = view.chase(ch[1]["a"])
+                if ch[0] == "call":
+                    return (ir.callee_name(ch[1]["fn"]) or "?").split("::")[-1]
+                if ch[0] == "rv" and ch[1]["r"] == "bin":
+                    return "%s(%s,%s)" % (ch[1]["op"], _named_local(view, ch[1]["a"]), _named_local(view, ch[1]["b"]))
+                if ch[0] == "rv" and ch[1]["r"] == "discr":
+                    return "match"
+                if ch[0] == "arg":
+                    return view.local_name(ch[1]) or "arg"
+            return "switch"
+        if t["t"] in ("goto", "call", "assert", "drop"):
+            preds = view.preds.get(p, [])
+            continue
+        return ""
+    return ""
+
+
 def local_sites(view):
+    out = _local_sites(view)
+    # stable discriminators: structural description + ordinal among equal descriptions
+    seen = {}
+    for s in out:
+        if s.kind == "assert:BoundsCheck":
+            d = "[%s]" % _named_local(view, s.term["index"])
+        elif s.kind.startswith("assert:"):
+            d = ""
+        elif s.kind == "diverge":
+            d = "#" + _cond_descr(view, s.block)
+        else:
+            d = ""
+        base = (s.kind, (s.macro if s.kind == "diverge" and s.macro else s.what) + d)
+        n = seen.get(base, 0) + 1
+        seen[base] = n
+        s.what = base[1] + ("" if n == 1 else "~%d" % n)
+    return out
+
+
+def _local_sites(view):
     """Panic sites of one body on its pruned CFG, not counting calls to local
     may-panic functions (those are added by the interprocedural summary)."""
     out = []
